@@ -27,6 +27,7 @@ use vh::Args;
 
 const CODE_ID: u64 = 7802;
 const F_BP: &str = "F";
+const FAKE_BP: &str = "FungibleVault";
 
 thread_local! {
     /// what the last F::poke tried and what the system answered
@@ -39,7 +40,13 @@ fn package() -> PackageDefinition {
     f.kv_collections = 1;
     f.event_e = true;
     f.functions = vec![("new", false), ("poke", true)];
-    package_definition(&[f])
+    // the same blueprint under the NAME of the privileged one, in this (non-resource) package
+    let mut v = BpSpec::new(FAKE_BP);
+    v.fields = 1;
+    v.kv_collections = 1;
+    v.event_e = true;
+    v.functions = vec![("new", false), ("poke", true)];
+    package_definition(&[f, v])
 }
 
 fn flags_of(sel: u8) -> (LockFlags, Vec<&'static str>) {
@@ -71,8 +78,9 @@ fn invoke<Y: SystemApi<RuntimeError> + KernelNodeApi + KernelSubstateApi<SystemL
     input: &IndexedScryptoValue,
     api: &mut Y,
 ) -> Result<IndexedScryptoValue, RuntimeError> {
-    match export {
-        "F::new" => {
+    let (bp_name, function) = export.split_once("::").expect("harness: export name");
+    match function {
+        "new" => {
             let (bucket,): (Bucket,) = input.as_typed().expect("harness: F::new takes a bucket");
             let mut vault = Vault::create(XRD, api)?;
             vault.put(bucket, api)?;
@@ -80,7 +88,7 @@ fn invoke<Y: SystemApi<RuntimeError> + KernelNodeApi + KernelSubstateApi<SystemL
             let state = FState { vault: vault.0, store: Own(store), counter: 0 };
             let metadata = Metadata::create(api)?;
             let access_rules = RoleAssignment::create(OwnerRole::None, indexmap!(), api)?;
-            let node_id = api.new_simple_object(F_BP, indexmap!(0u8 => FieldValue::new(&state)))?;
+            let node_id = api.new_simple_object(bp_name, indexmap!(0u8 => FieldValue::new(&state)))?;
             let addr = api.globalize(
                 node_id,
                 indexmap!(AttachedModuleId::Metadata => metadata.0, AttachedModuleId::RoleAssignment => access_rules.0.0),
@@ -88,7 +96,7 @@ fn invoke<Y: SystemApi<RuntimeError> + KernelNodeApi + KernelSubstateApi<SystemL
             )?;
             Ok(IndexedScryptoValue::from_typed(&addr))
         }
-        "F::poke" => {
+        "poke" => {
             let (kind, sel): (u8, u8) = input.as_typed().expect("harness: F::poke takes (kind, flags)");
             // the owned nodes, read the ordinary way (they stay visible while the read handle is open: kinds 2 and 4)
             let h = api.actor_open_field(ACTOR_STATE_SELF, 0u8, LockFlags::read_only())?;
@@ -146,7 +154,8 @@ fn invoke<Y: SystemApi<RuntimeError> + KernelNodeApi + KernelSubstateApi<SystemL
                 4 => vec![],
                 _ => names,
             };
-            ATTEMPT.with(|a| *a.borrow_mut() = Some(json!({"a": "attempt", "kind": what, "flags": flag_names, "blueprint": if kind == 4 { "FungibleVault" } else { F_BP }, "result": result})));
+            ATTEMPT.with(|a| *a.borrow_mut() = Some(json!({"a": "attempt", "kind": what, "flags": flag_names, "blueprint": if kind == 4 { "FungibleVault" } else { bp_name },
+                                                                "package": if kind == 4 { "resource" } else { "test" }, "result": result})));
             Ok(IndexedScryptoValue::from_typed(&()))
         }
         _ => panic!("harness: unknown export {}", export),
@@ -184,14 +193,26 @@ pub fn run(mode: &str, _args: &Args) {
         vec![],
     );
     let comp = receipt.expect_commit_success().new_component_addresses()[0];
-    let mut variants: Vec<(u8, u8)> = vec![];
+    let receipt = ledger.execute_manifest(
+        ManifestBuilder::new()
+            .lock_fee_from_faucet()
+            .get_free_xrd_from_faucet()
+            .take_all_from_worktop(XRD, "b")
+            .with_name_lookup(|b, l| b.call_function(pkg, FAKE_BP, "new", manifest_args!(l.bucket("b"))))
+            .build(),
+        vec![],
+    );
+    let fake = receipt.expect_commit_success().new_component_addresses()[0];
+    let mut variants: Vec<(ComponentAddress, &str, u8, u8)> = vec![];
     for kind in 0..3u8 {
         for sel in 0..4u8 {
-            variants.push((kind, sel));
+            variants.push((comp, F_BP, kind, sel));
         }
     }
-    variants.extend([(3, 0), (3, 1), (4, 0)]);
-    for (kind, sel) in variants {
+    variants.extend([(comp, F_BP, 3, 0), (comp, F_BP, 3, 1), (comp, F_BP, 4, 0)]);
+    // the blueprint that only has the privileged blueprint's NAME: event and substate attempts
+    variants.extend([(fake, "fake", 3, 0), (fake, "fake", 3, 1), (fake, "fake", 0, 1), (fake, "fake", 1, 1), (fake, "fake", 2, 3)]);
+    for (comp, tag, kind, sel) in variants {
         for fails in [true, false] {
             // the failing transaction is the subject; the succeeding one (controls only) shows that the write is real
             if !fails && !(sel == 0) {
@@ -202,7 +223,7 @@ pub fn run(mode: &str, _args: &Args) {
             if fails {
                 b = b.assert_worktop_contains(XRD, Decimal::ONE);
             }
-            let label = format!("forcewrite:kind{}:flags{}:{}", kind, sel, if fails { "failing" } else { "succeeding" });
+            let label = format!("forcewrite{}:kind{}:flags{}:{}", if tag == F_BP { "".to_string() } else { format!("-{}", tag) }, kind, sel, if fails { "failing" } else { "succeeding" });
             let res = catch(|| ledger.execute_manifest(b.build(), vec![]));
             out.emit(&json!({"a": "begin", "label": label}));
             let attempt = ATTEMPT.with(|a| a.borrow().clone());
@@ -211,7 +232,7 @@ pub fn run(mode: &str, _args: &Args) {
                     a["label"] = json!(label);
                     out.emit(&a);
                 }
-                None => out.emit(&json!({"a": "attempt", "label": label, "kind": "none", "flags": [], "blueprint": F_BP, "result": "not reached"})),
+                None => out.emit(&json!({"a": "attempt", "label": label, "kind": "none", "flags": [], "blueprint": F_BP, "package": "test", "result": "not reached"})),
             }
             let mut ev = crate::faults::project(ledger.substate_db(), &res, 0);
             ev["label"] = json!(label);
